@@ -278,7 +278,7 @@ T1_PROPS = {
     'C02': dict(target='Properties_C02', clauses=['C02', 'HARNESS', 'CRASH', 'C17'], profiles=['grow', 'churn', 'mixed', 'resize', 'locked', 'workers', 'workers_rebuild']),
     'C05': dict(target='Properties_C05', clauses=['C05'], profiles=['churn', 'resize', 'stream', 'mixed', 'locked', 'special', 'grow', 'stream', 'workers_rebuild']),
     'C09': dict(target='Properties_C09', clauses=['C09'], profiles=['locked', 'locked', 'mixed', 'workers', 'workers_rebuild']),
-    'C10': dict(target='Properties_C10', clauses=['C10'], profiles=['resize', 'resize', 'mixed', 'grow', 'workers_rebuild']),
+    'C10': dict(target='Properties_C10', clauses=['C10'], profiles=['resize', 'resize', 'mixed', 'grow', 'workers_rebuild', 'special']),
     'C17': dict(target='Properties_C17', clauses=['C17'], profiles=['churn', 'grow', 'mixed']),
     'C08': dict(target='Properties_C08', clauses=['HARNESS', 'CRASH', 'LEAK'], profiles=['churn', 'grow', 'resize', 'special', 'locked'], kinds=[1]),
     'C11': dict(target='Properties_C11', clauses=['C11', 'C02', 'C05', 'HARNESS', 'CRASH', 'LEAK'], profiles=['special']),
@@ -307,6 +307,10 @@ def blame_kinds(res):
             prs = lambda x: sorted(re.findall(r':(\d+=-?\d+)/', x))
             if prs(d['impl']) != prs(d['model']):
                 kinds.add('C10'); kinds.add('C02')
+        # the state of a table right after a copy / move / swap / assignment differs from the model's, whose special
+        # members provably transfer the complete state (Special.v): contents, counters, pending migration, limits
+        if len(opw) >= 3 and opw[2] in ('swap', 'copyto', 'moveto', 'assignto', 'massignto', 'copyallocto', 'moveallocto'):
+            kinds.add('C11')
         if 'consumed=' in str(d.get('impl', '')) + str(d.get('model', '')):
             kinds.add('CONSUMED')    # the caller's arguments were (not) moved from against the model
     return kinds
@@ -374,6 +378,30 @@ def check_T1(pid, tier, seed):
     # library that needs a second thread inserting the same key while the first one displaces, so these two
     # checks also run the single-preemption sweeps of racing same-key insertions on the T2 harness
     conc_res = []
+    if pid == 'C08':
+        # "the table never treats a destroyed or moved-from object as a live element" under concurrent displacement:
+        # an element erased between the path search and the move must stay erased (layout sweeps, tie T2)
+        ccfgs = t2.CONC_CFGS_QUICK
+        cbins = t2.build_conc(ccfgs)
+        crng = random.Random(seed * 29 + 3)
+        cjobs = []
+        for i in range(6 if tier == 'quick' else 80):
+            cc = ccfgs[i % len(ccfgs)]
+            for sc in gen_conc.gen_sweep_layout(crng.getrandbits(48), cc[0], cc[1]):
+                cjobs.append((cbins[cc], sc, 'layoutsweep', os.path.join(BUILD, 'cases_' + pid), False))
+        conc_res = t2.run_many(cjobs)
+    if pid == 'C12':
+        # "a fully functional table in both locked and normal mode": operations of other threads that overlap the
+        # extraction (blocked on the section, or holding a snapshot taken before it) must see the extracted table
+        ccfgs = t2.CONC_CFGS_QUICK
+        cbins = t2.build_conc(ccfgs)
+        crng = random.Random(seed * 23 + 11)
+        cjobs = []
+        for i in range(8 if tier == 'quick' else 120):
+            cc = ccfgs[i % len(ccfgs)]
+            for sc in gen_conc.gen_sweep_section(crng.getrandbits(48), cc[0], cc[1], sin_only=True):
+                cjobs.append((cbins[cc], sc, 'sinsweep', os.path.join(BUILD, 'cases_' + pid), False))
+        conc_res = t2.run_many(cjobs)
     if pid in ('C16', 'C17'):
         ccfgs = t2.CONC_CFGS_QUICK
         cbins = t2.build_conc(ccfgs)
@@ -416,11 +444,12 @@ def check_T1(pid, tier, seed):
                 known_hits[sig] = kf[0]
             else:
                 viol.append(r)
+    conc_unreplayed = [r for r in conc_res if not r.get('replayed', True)] if pid == 'C12' else []
     for r in conc_res:
-        bad = [p for p in r['problems'] if p[0] in ('C01', 'C05')]
+        bad = [p for p in r['problems'] if p[0] in ('C01', 'C05') + (('C06', 'C03') if pid == 'C12' else ())]
         if bad:
             r2 = dict(r); r2['status'] = 'concurrent'; r2['blames'] = []
-            r2['detail'] = 'racing same-key insertions (T2): ' + bad[0][1]
+            r2['detail'] = 'concurrent schedule (T2): ' + bad[0][1]
             viol.append(r2)
     violations = 0
     for sig, f in known_hits.items():
@@ -433,10 +462,11 @@ def check_T1(pid, tier, seed):
         path = save_replay(pid, txt, note)
         log('VIOLATION property=%s replay=%s' % (pid, path))
         violations = 1
-    elif mism or broken:
-        r = mism[0] if mism else None
+    elif mism or broken or conc_unreplayed:
+        r = mism[0] if mism else (conc_unreplayed[0] if conc_unreplayed else None)
         txt = open(r['path']).read() if r and os.path.exists(r['path']) else '# no disagreeing script\n'
-        note = '\n'.join(broken + (['correspondence T1 (model vs implementation, slot-exact) broke: %s' % json.dumps(r['detail'])[:800]] if r else []))
+        note = '\n'.join(broken + (['correspondence T1 (model vs implementation, slot-exact) broke: %s' % json.dumps(r['detail'])[:800]] if r in mism else []) +
+                         (['correspondence T2: the event trace of a schedule around a stream extraction is not a run of the L2 model: %s' % r.get('replay_fail')] if r in conc_unreplayed else []))
         path = save_replay(pid, txt, note)
         log('VIOLATION property=%s replay=%s no-failing-input-found' % (pid, path))
         violations = 1
@@ -461,7 +491,7 @@ def check_T1(pid, tier, seed):
                samples=[dict(script_head=sample_script[:3] + sample_script[-12:])],
                traces_validated_against_impl=len(okres),
                operations_judged=sum(r.get('judged', 0) for r in res),
-               feature_counts=feats, corpus_cases=ncorpus, mismatches=len(mism),
+               feature_counts=feats, corpus_cases=ncorpus, mismatches=len(mism), model_timeouts_inconclusive=len([r for r in res if r['status'] == 'model_timeout']),
                concurrent_same_key_sweeps=len(conc_res), fault_positions_checked_for_size=sum(len(r['lines']) for r in fault_res),
                known_findings=sorted(known_hits.keys()), gen_changed=changed)
     write_evidence(pid, tier, seed, cov, time.time() - t0, violations, TRUSTED_BASE)
@@ -761,12 +791,29 @@ def check_T2(pid, tier, seed):
         c = cfgs[i % len(cfgs)]
         for sc in gen_conc.gen_sweep(rng.getrandbits(48), c[0], c[1]) + (gen_conc.gen_sweep_layout(rng.getrandbits(48), c[0], c[1]) if i % 2 == 0 else []):
             jobs.append((bins[c], sc, 'sweep_s%d_l%d' % c, keep, False)); nsw += 1
+    # sweeps around a locked section that resizes / replaces the table
+    if pid == 'C06':
+        for i in range(6 if tier == 'quick' else 90):
+            c = cfgs[i % len(cfgs)]
+            for sc in gen_conc.gen_sweep_section(rng.getrandbits(48), c[0], c[1]):
+                jobs.append((bins[c], sc, 'secsweep_s%d_l%d' % c, keep, False)); nsw += 1
     # two-preemption sweeps over a constructed layout (check-then-act windows in the displacement code)
-    if pid in ('C01', 'C03'):
+    if pid in ('C01', 'C03', 'C04'):
         for i in range(1 if tier == 'quick' else 16):
             c = cfgs[(i + 1) % len(cfgs)]
             for sc in gen_conc.gen_sweep2_layout(rng.getrandbits(48), c[0], c[1]):
                 jobs.append((bins[c], sc, 'sweep2_s%d_l%d' % c, keep, False)); nsw += 1
+    # instrumented mapped type (uses of stored values are events, reads of them scheduling points): lookups through
+    # every overload against writers of the same element - "no call observes a stale value", "never a mixture"
+    if pid in ('C01', 'C03'):
+        vbins = t2.build_conc(cfgs, valhook=True)
+        for i in range(60 if tier == 'quick' else 2000):
+            c = cfgs[i % len(cfgs)]
+            jobs.append((vbins[c], gen_conc.gen_reads(rng.getrandbits(48), c[0], c[1]), 'reads_s%d_l%d' % c, keep, False))
+        for i in range(4 if tier == 'quick' else 60):
+            c = cfgs[i % len(cfgs)]
+            for sc in gen_conc.gen_sweep_reads(rng.getrandbits(48), c[0], c[1]):
+                jobs.append((vbins[c], sc, 'readsweep_s%d_l%d' % c, keep, False)); nsw += 1
     # data accesses against the happens-before model: C03 (race clause) and C01 (no stale observation)
     os.environ['VERIF_T2_MEM'] = {'C03': '1', 'C01': 'random'}.get(pid, '0')   # C01: the randomly scheduled runs only (the sweeps are covered by C03)
     res = t2.run_many(jobs)
